@@ -810,6 +810,29 @@ def run_r1(r, F, c, D, tabs):
                     r.violation("varint:polarity:%s" % side,
                                 "the writer sets the continuation bit when more bytes follow but the %s reader stops "
                                 "when the bit is set: every operand is mis-read" % side, rv[0] if side == "rust" else DORA_READER)
+        # worst-case length: every reader must be able to consume the longest encoding the writer can emit
+        wb = W["methods"][wv[0]]
+        mw = W["interp"].max_bytes(wv[0], [H.Val("self")] + [H.Val("unk") for _ in wb["params"][1:]])
+        mr = R["interp"].max_bytes(rv[0], [H.Val("self")])
+        md = Dr["interp"].max_bytes(dv[0], [H.Val("self")])
+        show = lambda m: "unbounded" if m is None else m        # noqa: E731
+        r.instance("varint:max-length", nontrivial=True,
+                   sample={"codec": "max bytes per operand", "values": {"writer": show(mw), "rust": show(mr),
+                                                                        "dora": show(md)}})
+        for side, m in (("writer", mw), ("rust-reader", mr), ("dora-reader", md)):
+            if isinstance(m, str):
+                r.violation("ANALYSIS:varint:max-length:%s" % side, "worst-case length of the %s varint loop: %s"
+                            % (side, m), wv[0])
+        if mw is None:
+            r.observe("varint: the emitter's loop has no bound derivable from the operand width")
+        elif isinstance(mw, int):
+            stp = next(iter(cw["step"])) if len(cw["step"]) == 1 else 7
+            for side, m, where in (("rust-reader", mr, rv[0]), ("dora-reader", md, DORA_READER)):
+                if isinstance(m, int) and m < mw:
+                    r.violation("varint:max-length:%s" % side,
+                                "%s emits up to %d bytes per operand but the %s consumes at most %d: every operand "
+                                ">= 2^%d = %d is truncated and its byte #%d is decoded as the next opcode"
+                                % (last(wv[0]), mw, side, m, stp * m, 1 << (stp * m), m + 1), where)
         if all(len(cw[k]) == 1 for k in cw):
             st, mk, fl = (next(iter(cw[k])) for k in ("step", "mask", "flag"))
             r.instance("varint:shape", nontrivial=True)
